@@ -168,7 +168,7 @@ def run_special(acc, api):
     acc.cover('special_classes', 'subnormals-and-zeros')
 
 
-NEAR = ['nan', 'NaN', 'inf', '-inf', 'Infinity', '+inf', '1e999', '-1e999', '12abc', '1.2.3', '--1', '1e', '', ' ', '0x10', '1,5', 'abc', '1e+', '.', '-', '+',
+NEAR = ['-nan', '+nan', '+NaN', '-NaN', ' -nan ', 'nan ', ' nan', '-Infinity', '+Infinity', '+infinity', ' inf', '-INF', 'nan', 'NaN', 'inf', '-inf', 'Infinity', '+inf', '1e999', '-1e999', '12abc', '1.2.3', '--1', '1e', '', ' ', '0x10', '1,5', 'abc', '1e+', '.', '-', '+',
         'e5', '1 2', '1..2', 'null', 'true', '1e5.5', '0b11', '1f', 'nan1', 'infinity', '- 1', '1-']
 GOOD = [('0', 0), ('1', 1), ('-1', -1), ('1.5', 1.5), ('1e3', 1000), ('1E3', 1000), ('-2.5e-3', -0.0025), ('007', 7), ('1.', 1), ('.5', 0.5), ('+3', 3),
         ('123456789012345678', 123456789012345678.0)]
